@@ -35,7 +35,8 @@ Step(e) ==
          /\ UNCHANGED <<bad, kind>>
     [] e.ev = "Op" /\ e.op = "openfail" ->
          /\ OpenFail(FALSE)
-         /\ Flag(e.touchedObj, "a failed open left an object behind")
+         /\ Flag(e.touchedObj \/ ~e.ctxnow, IF e.touchedObj THEN "a failed open left an object behind"
+                                              ELSE "the context handed to the handler of a failed open was not cancelled when the request was answered")
          /\ UNCHANGED <<bad, kind>>
     [] e.ev = "Op" /\ e.op = "use" ->
          /\ Use(e.h)
@@ -47,8 +48,9 @@ Step(e) ==
          /\ UNCHANGED <<bad, kind>>
     [] e.ev = "Op" /\ e.op = "close" ->
          /\ Close(e.h, e.objfail)
-         /\ Flag((e.h \in valid /\ ~e.objfail) # e.ok,
-                 IF e.h \in valid THEN (IF e.objfail THEN "close succeeded although the object's Close reported an error" ELSE "close of an open handle failed")
+         /\ Flag((e.h \in valid /\ ~e.objfail) # e.ok \/ ~e.ctxnow,
+                 IF (e.h \in valid /\ ~e.objfail) = e.ok THEN "the context handed to the open handler was not cancelled when its handle was closed"
+                 ELSE IF e.h \in valid THEN (IF e.objfail THEN "close succeeded although the object's Close reported an error" ELSE "close of an open handle failed")
                  ELSE "close of a closed or never issued handle succeeded")
          /\ UNCHANGED <<bad, kind>>
     [] e.ev = "Op" /\ e.op = "inflightopen" ->
